@@ -147,8 +147,8 @@ CHECKS = {
     },
     "C03": {
         "extra_props": ["Props/MapFut_E.v", "Props/C03_src.v", "Props/MapFut_E2.v", "Props/Comb_G.v", "Props/C03_retry.v", "Props/C07_more.v", "Props/C03_poll.v", "Props/C03_loops.v"],
-        "modules": ["p_c03", "p_c03t", "p_c03h", "p_c03p", "p_c03r", "p_c03e", "p_c03m", "p_c03c", "p_c03z"],
-        "rule": "p_c03e: the Retry lockstep family with delegate futures cancelled by SOMEONE ELSE (environment cancel, Model/Retry.v EEnvCancel): a retry future left pending that way is the known finding G1; p_c03m / p_c03c / p_c03z: the lockstep families of C13, C14, C15 (MapFuture / FlatMapFuture, f_or / f_and, f_zip over environment futures) with the lost-output verdicts of their monitors; p_c03t / p_c03h / p_c03p / p_c03r: the lockstep scenario families of C09 / C07 / C08 / C05 (mixed timeouts on one executor, delegate completions against the hand-over thread's check/wait/clear, registrations and notify() against the poll thread's, attempts finishing against the submit thread's) replayed on the component machines, with the lost-future / late verdicts of their monitors; p_c03: seeded scenarios on real stacks (depth 1-4, sync / real thread pool) with a virtual clock: callables that succeed, fail "
+        "modules": ["p_c03", "p_c03t", "p_c03h", "p_c03p", "p_c03r", "p_c03e", "p_c03m", "p_c03c", "p_c03z", "p_c03x"],
+        "rule": "p_c03x: the expression trees of p_c02x (library futures built on library futures: proxies, shields, maps, combinators) with the lost-output verdicts; p_c03e: the Retry lockstep family with delegate futures cancelled by SOMEONE ELSE (environment cancel, Model/Retry.v EEnvCancel): a retry future left pending that way is the known finding G1; p_c03m / p_c03c / p_c03z: the lockstep families of C13, C14, C15 (MapFuture / FlatMapFuture, f_or / f_and, f_zip over environment futures) with the lost-output verdicts of their monitors; p_c03t / p_c03h / p_c03p / p_c03r: the lockstep scenario families of C09 / C07 / C08 / C05 (mixed timeouts on one executor, delegate completions against the hand-over thread's check/wait/clear, registrations and notify() against the poll thread's, attempts finishing against the submit thread's) replayed on the component machines, with the lost-future / late verdicts of their monitors; p_c03: seeded scenarios on real stacks (depth 1-4, sync / real thread pool) with a virtual clock: callables that succeed, fail "
                 "(retries with back-off), block until t=2, futures cancelled through the returned future at t=0/1/2, small (3) or "
                 "effectively infinite timeouts; x {random, sticky, PCT} schedules; monitor: every returned future is terminal when nothing "
                 "can happen any more, and finished no later than the virtual time implied by the configured delays (so a lost wake-up that "
@@ -177,8 +177,8 @@ CHECKS = {
     "C12": {
         "extra_props": ["Props/C12_src.v", "Props/C12_keep_throttle.v", "Props/C12_keep_timeout.v", "Props/C12_keep_poll.v", "Props/C12_keep_cos.v",
                         "Props/C12_keep_mapfut.v", "Props/C12_keep_comb.v"],
-        "modules": ["p_c12", "p_c12w"],
-        "rule": "p_c12w: the drop scenarios of p_c12 with the four worker loops in lockstep with Model/Refs.v: every executor_ref() of the loop with its result, whether a library frame "
+        "modules": ["p_c12", "p_c12w", "p_c12p"],
+        "rule": "p_c12p: the Poll lockstep family of C08 with the verdicts about descriptors left behind by finished futures (concurrent completions / cancels against registration and deregistration); p_c12w: the drop scenarios of p_c12 with the four worker loops in lockstep with Model/Refs.v: every executor_ref() of the loop with its result, whether a library frame "
                 "of the loop still holds the executor when it goes to wait, every set / wait / wake-up / time-out / clear of the loop's event and the finalisation of the executor "
                 "(the weak reference's callback) are logged from outside and replayed on the extracted machine; p_c12: seeded scenarios on real retry / poll / throttle / timeout executors (over sync or a manual delegate that forgets finished "
                 "work): 1-3 submissions with weakly referenced callable, argument, result and future; fates {completed, cancelled while "
